@@ -21,7 +21,7 @@ from ..algebra_lin import linear_form
 FILESET = "typhon/files/fileset.py"
 TIMEUTILS = "typhon/utils/timeutils.py"
 TREES = "typhon/trees.py"
-EXPECT = {"C01.semiopen": 4, "C01.prune": 8, "C01.anchor": 3, "C01.exclude": 3, "C01.blacklist": 3, "C01.sortkey": 2, "C01.bundle": 3,
+EXPECT = {"C01.args": 3, "C01.semiopen": 4, "C01.prune": 9, "C01.anchor": 3, "C01.exclude": 3, "C01.blacklist": 3, "C01.sortkey": 2, "C01.bundle": 3,
           "C01.trunc": 1, "C01.restable": 2, "C01.len": 3, "C01.pathstate": 1, "C01.reset": 1}
 
 US = {"microseconds": 1, "milliseconds": 1000, "seconds": 10 ** 6, "minutes": 60 * 10 ** 6, "hours": 3600 * 10 ** 6, "days": 86400 * 10 ** 6, "weeks": 7 * 86400 * 10 ** 6}
@@ -186,6 +186,44 @@ def rule_prune(ctx):
     ctx.ob("FileSet.find.lookback", okf, "dir_start in %s (guards %s)" % (forms, guards),
            "dir_start = start - sub-directory resolution (look-BACK by one period of the finest directory level), or start when there is none",
            node=c, func=f)
+    # the look-back is given up only where there is no directory period or nothing before the start
+    from ..flow import guard_chain as _gc
+    lb = [d for d in defs if isinstance(d, ast.Assign) and not isinstance(d.value, ast.IfExp)
+          and linear_form(d.value, {sname: "S", "self._sub_dir_time_resolution": "R"}) == {"S": 1, "R": -1}]
+    if okf and len(lb) == 1:
+        atoms = []
+
+        def _add(e_, truth):
+            while isinstance(e_, ast.UnaryOp) and isinstance(e_.op, ast.Not):
+                e_, truth = e_.operand, not truth
+            if isinstance(e_, ast.BoolOp) and ((isinstance(e_.op, ast.And) and truth) or (isinstance(e_.op, ast.Or) and not truth)):
+                for v__ in e_.values:
+                    _add(v__, truth)
+            else:
+                e2 = flow.resolve(e_, at=lb[0], stop=(sname,))
+                if e2 is not e_ and isinstance(e2, (ast.BoolOp, ast.UnaryOp)):
+                    _add(e2, truth)
+                else:
+                    atoms.append((e2, truth))
+        for t_, pol_ in _gc(lb[0]):
+            _add(t_, pol_)
+        R = "self._sub_dir_time_resolution"
+        accepted = {("%s is None" % R, False), ("%s is not None" % R, True), (R, True), ("%s == datetime.min" % sname, False),
+                    ("%s != datetime.min" % sname, True), ("%s > datetime.min" % sname, True), ("datetime.min < %s" % sname, True),
+                    ("%s <= datetime.min" % sname, False), ("datetime.min == %s" % sname, False), ("datetime.min != %s" % sname, True)}
+        foreign = []
+        for e_, tr_ in atoms:
+            if (str(norm(e_)), tr_) in accepted:
+                continue
+            names_ = {norm(n_) for n_ in ast.walk(e_) if isinstance(n_, (ast.Name, ast.Attribute))}
+            if R in names_ or sname in names_ or "self._sub_dir" in names_:
+                raise AnalysisError("find: the look-back is taken under %s%s - a condition on the start or the resolution that is not analysed" % ("" if tr_ else "not ", norm(e_)))
+            foreign.append(("" if tr_ else "not ") + str(norm(e_))[:90])
+        ctx.ob("FileSet.find.lookback.always", not foreign, "look-back taken only if also: %s" % (foreign or "nothing else"),
+               "given up only without a directory period or for a search from the beginning of time: a file may always reach beyond the "
+               "period of its directory (its end comes from the name, the handler or time_coverage)", node=lb[0], func=f)
+    else:
+        ctx.ob("FileSet.find.lookback.always", okf, "look-back forms not recognised", "see FileSet.find.lookback", node=c, func=f)
     base = {sname: "S", ename: "E"}
     e_form = _value_chain(flow, c.args[1].id, enclosing_stmt(c), base) if isinstance(c.args[1], ast.Name) else None
     ctx.ob("FileSet.find.search_end", e_form == {"E": 1, "tick": -1}, "second argument of _get_search_dirs = %s" % e_form, "the (exclusive) end minus one tick", node=c, func=f)
@@ -839,3 +877,6 @@ def run(ctx):
     ctx.attempt(rule_reset, ctx, "C01.reset")
     # IntervalTree code reachable from find (overlap test) and is_excluded (`times in tree`)
     tree_rules(ctx, which=("pred", "partition", "descent_q", "scan_q", "early_q", "rows", "empty", "extent", "member"))
+    # the caller's arguments (arrays, filter / fill dictionaries) are not modified: an in-place update makes the next call on the same objects wrong
+    from ..purity import rule_pure as _rule_args
+    ctx.attempt(_rule_args, ctx, "C01.args", [('typhon/files/fileset.py', 'FileSet.find'), ('typhon/files/fileset.py', 'FileSet._check_file'), ('typhon/files/fileset.py', 'FileSet._get_matching_files')], "the caller's arguments are not modified in place")
